@@ -12,7 +12,7 @@ from ural.patterns import DOMAIN_TEMPLATE
 
 INSTAGRAM_POST_SHORTCODE_RE = re.compile(r"^[a-zA-Z0-9_\-]+$")
 INSTAGRAM_USERNAME_RE = re.compile(r"^[a-zA-Z0-9_\-\.]+$")
-INSTAGRAM_DOMAIN_RE = re.compile(r"instagram\.com$", re.I)
+INSTAGRAM_DOMAIN_RE = re.compile(r"(?:^|\.)instagram\.com$", re.I)
 INSTAGRAM_URL_RE = re.compile(DOMAIN_TEMPLATE % r"(?:[^.]+\.)*instagram\.com", re.I)
 INSTAGRAM_NOT_A_USER_SET = {
     "accounts",
